@@ -101,6 +101,14 @@ class MyTuple(tuple):
     pass
 
 
+class MyBytes(bytes):
+    pass
+
+
+class MyByteArray(bytearray):
+    pass
+
+
 Point = collections.namedtuple("Point", ["x", "y"])
 
 USER_CLASSES = {"FalsyState": FalsyState, "Plain": Plain, "WithState": WithState, "Slotted": Slotted, "ReduceCtor": ReduceCtor, "RaisingState": RaisingState}
@@ -146,6 +154,8 @@ def build(spec, made=None):
         return bytes.fromhex(spec[1])
     if tag == "bytearray":
         return keep(bytearray.fromhex(spec[1]))
+    if tag == "mybytes":
+        return keep({"MyBytes": MyBytes, "MyByteArray": MyByteArray, "np.bytes_": np.bytes_}[spec[1]](bytes.fromhex(spec[2])))
     if tag == "ref":
         return made[spec[1] % len(made)] if made else None
     # containers are registered for sharing only once complete: the grammar produces DAGs, not cycles
